@@ -19,6 +19,13 @@ constructor keyword, the configured `control.default_dt` (None in the 0.8.x lega
 product with a static gain (whose timebase is None).  `scale` records that all roots were multiplied by a power of ten
 (dynamics far outside 0.01 .. 100 rad/s, the range a loop without any pole / zero feature gets).
 
+A case can also be ONE CALL on a list of loops (`kind: list`, `members`: ordinary loop cases; `cont: tuple`, `share`:
+equal members are the same object, `twice`: the call is made twice, `cfg`): nyquist_response builds one common grid
+from the features of all systems and cuts it per system at that system's Nyquist frequency.  Every member is compared
+like a loop analysed alone (six driver lines per member; (d) becomes `lgrid`: the model's common range, (e) `lomega`:
+the model's loop over the systems with all timebases and this member's position), plus, at list level, the number of
+criterion warnings and the identity of two successive identical calls.
+
 Per case six driver lines:
  (a) `count`   – the model's unwrap/count applied to the implementation's own samples
                  `response.response` (exact rationals of the floats) and `np.angle(resp+1)` (external,
@@ -237,6 +244,11 @@ def make_system(case):
 
 
 def valid(case):
+    if is_list(case):
+        ms = case.get("members") or []
+        return 1 <= len(ms) <= 6 and all(
+            (not is_list(m)) and m.get("kind") != "unwrap" and m.get("dir") == "right" and "cfg" not in m
+            and route_of(m) != "default" and valid(m) for m in ms)
     try:
         route = route_of(case)
         if route not in ROUTES or case.get("tb", "N") != "N" or (case.get("tb") and case["disc"]):
@@ -332,10 +344,11 @@ def splane_poles(sys, which, case):
         return p, np.log(z) / disc_dt(case)
 
 
-def spec_features(sys, case):
+def spec_features(sys, case, subst=True):
     """(log10 of the features, log10 of freq_interesting), selected as `_default_frequency_range` is documented to
     (lines 2779-2820): the inputs of the Lean model `Nyquist.rangeExponents` (log10 is external).  The branch is the
-    model's `featureBranch` of the timebase of the case (continuous for dt = 0 and dt = None), compared in (f)."""
+    model's `featureBranch` of the timebase of the case (continuous for dt = 0 and dt = None), compared in (f).
+    `subst=False`: the features of one system of a list (the empty test of line 2815 is applied to the union)."""
     interesting = []
     if not case["disc"]:
         f = np.concatenate((np.abs(sys.poles()), np.abs(sys.zeros())))
@@ -348,7 +361,7 @@ def spec_features(sys, case):
         f = f[~drop]
         with np.errstate(all="ignore"):
             f = np.abs(np.log(f) / (1.j * disc_dt(case)))
-    if f.shape[0] == 0:
+    if f.shape[0] == 0 and subst:
         f = np.array([1.])
     with np.errstate(all="ignore"):
         return np.log10(f), np.log10(np.array(interesting, dtype=float))
@@ -383,9 +396,11 @@ def default_omega(case, indent_points, raw):
 
 def impl_raw_grid(sys):
     """the logarithmic grid the implementation's own helper returns for nyquist_response's call (private helper:
-    may move; then only the contour comparison ties the grid to the documented range)"""
+    may move; then only the contour comparison ties the grid to the documented range); `sys`: a system or the list of
+    systems of one call"""
     num = ct.config._get_param("freqplot", "number_of_samples", None)
-    omega, given = _fp._determine_omega_vector([sys], None, None, num, feature_periphery_decades=2)
+    syslist = list(sys) if isinstance(sys, (list, tuple)) else [sys]
+    omega, given = _fp._determine_omega_vector(syslist, None, None, num, feature_periphery_decades=2)
     assert not given
     return np.asarray(omega, dtype=float)
 
@@ -402,13 +417,17 @@ def run_case(case):
         sets[CFG_KEY] = float(F(case["cfg"]))
     if route_of(case) == "default":
         sets[DT_KEY] = None                   # as after use_legacy_defaults('0.8.x'): unspecified default timebase
+    return with_config(sets, run_case_, case)
+
+
+def with_config(sets, fn, case):
     if not sets:
-        return run_case_(case)
+        return fn(case)
     missing = object()
     old = {k: ct.config.defaults.get(k, missing) for k in sets}
     ct.config.defaults.update(sets)
     try:
-        return run_case_(case)
+        return fn(case)
     finally:
         for k, v in old.items():
             if v is missing:
@@ -472,6 +491,121 @@ def run_case_(case):
     return out
 
 
+def is_list(case):
+    """one call of nyquist_response on a list / tuple of loops (`members`: ordinary loop cases)"""
+    return case.get("kind") == "list"
+
+
+def run_list(case):
+    """one call `nyquist_response([L1, L2, ...])`; -> {"members": [observation of every loop, same keys as run_case],
+    "ncrit": number of 'does not match Nyquist criterion' warnings of the call, "repeat": difference found when the
+    same call is made a second time (None: identical)}.  The documented common grid (features of ALL systems,
+    `_default_frequency_range` 2761-2829) is replicated here from the poles / zeros of the systems; every member's
+    `omega` is cut from it at the member's own Nyquist frequency."""
+    sets = {}
+    if case.get("cfg") is not None:
+        sets[CFG_KEY] = float(F(case["cfg"]))
+    return with_config(sets, run_list_, case)
+
+
+def fill_response(out, resp):
+    out["count"] = int(resp.count)
+    out["contour"] = np.asarray(resp.contour)
+    out["resp"] = np.asarray(resp.response)
+    out["r"] = ct.config._get_param("nyquist", "indent_radius", None, _fp._nyquist_defaults)
+    out["npts"] = ct.config._get_param("nyquist", "indent_points", None, _fp._nyquist_defaults)
+
+
+def call_list(arg):
+    with warnings.catch_warnings(record=True) as wl:
+        warnings.simplefilter("always")
+        resp = ct.nyquist_response(arg)
+    return resp, [str(w.message) for w in wl]
+
+
+def run_list_(case):
+    members = case["members"]
+    syss, built = [], {}
+    for m in members:
+        key = canon(m)
+        if case.get("share") and key in built:
+            sys = built[key]                 # the SAME object twice in the list
+        else:
+            sys = make_system(m)
+            built[key] = sys
+        syss.append(sys)
+    outs = []
+    for sys in syss:
+        o = {"sys": sys, "dt": sys.dt, "warn_criterion": None, "warn_noninteger": None}
+        try:
+            o["pred"] = [bool(sys.isctime()), bool(sys.isctime(strict=True)),
+                         bool(sys.isdtime()), bool(sys.isdtime(strict=True))]
+        except Exception as e:  # noqa
+            o["pred"] = "%s: %s" % (type(e).__name__, str(e)[:80])
+        outs.append(o)
+    res = {"members": outs, "ncrit": None, "repeat": None}
+    arg = tuple(syss) if case.get("cont") == "tuple" else list(syss)
+    exc = None
+    try:
+        resp, msgs = call_list(arg)
+        if len(resp) != len(syss):
+            exc = "WrongLength: %d responses for %d systems" % (len(resp), len(syss))
+    except Exception as e:  # noqa
+        exc = "%s: %s" % (type(e).__name__, str(e)[:120])
+    if exc is not None:
+        for m, o in zip(members, outs):
+            o["exc"] = exc
+            try:
+                o["zpoles"], o["spoles"] = splane_poles(o["sys"], "ol", m)
+                o["zclpoles"], o["sclpoles"] = splane_poles(o["sys"], "cl", m)
+            except Exception:  # noqa
+                for k in ("zpoles", "spoles", "zclpoles", "sclpoles"):
+                    o.pop(k, None)
+        return res
+    res["ncrit"] = sum(1 for t in msgs if "does not match Nyquist criterion" in t)
+    for o, r in zip(outs, resp):
+        fill_response(o, r)
+    if case.get("twice"):
+        # history: the same call once more (same objects) must give the same result
+        try:
+            resp2, _ = call_list(arg)
+            for i, (a, b) in enumerate(zip(resp, resp2)):
+                if int(a.count) != int(b.count) or not np.array_equal(np.asarray(a.contour), np.asarray(b.contour)) \
+                        or not np.array_equal(np.asarray(a.response), np.asarray(b.response)):
+                    res["repeat"] = "system %d: count %d / %d points, second identical call %d / %d points" % (
+                        i, int(a.count), len(a.contour), int(b.count), len(b.contour))
+                    break
+        except Exception as e:  # noqa
+            res["repeat"] = "second identical call raises %s: %s" % (type(e).__name__, str(e)[:100])
+    # the documented common grid
+    try:
+        num = ct.config._get_param("freqplot", "number_of_samples", None)
+        per = [spec_features(o["sys"], m, subst=False) for m, o in zip(members, outs)]
+        logs = np.concatenate([p[0] for p in per])
+        interesting = np.concatenate([p[1] for p in per])
+        if len(logs) == 0:
+            logs = np.array([0.])            # log10 of the substituted feature 1.
+        lohi = spec_exponents(logs, interesting)
+        raw = np.logspace(lohi[0], lohi[1], num=num, endpoint=True)
+        for m, o in zip(members, outs):
+            o["zpoles"], o["spoles"] = splane_poles(o["sys"], "ol", m)
+            o["zclpoles"], o["sclpoles"] = splane_poles(o["sys"], "cl", m)
+            o["fs"] = per
+            o["logs"], o["interesting"], o["lohi"], o["raw"] = logs, interesting, lohi, raw
+            o["omega"] = default_omega(m, o["npts"], raw)
+    except Exception as e:  # noqa
+        for o in outs:
+            o["aux_exc"] = "%s: %s" % (type(e).__name__, str(e)[:120])
+    try:
+        g = impl_raw_grid(syss)
+        for o in outs:
+            o["raw_impl"] = g
+    except Exception as e:  # noqa
+        for o in outs:
+            o["raw_impl_exc"] = "%s: %s" % (type(e).__name__, str(e)[:120])
+    return res
+
+
 def finite(a):
     return bool(np.all(np.isfinite(a)))
 
@@ -481,15 +615,21 @@ class C13(Family):
     prop = "C13"
     extra_modules = ["CtrlVerif.Props.C13Arg",    # argument principle on the imaginary axis (H1, H3 discharged)
                      "CtrlVerif.Props.C13Grid",   # default frequency grid: range, start at 0, end at Nyquist
+                     "CtrlVerif.Props.C13List",   # a list of loops in one call: common grid, loop over the systems
                      # source-text tie (notes/NOTES-py2lean-unwrap.md): Generated/Nyq*.lean are rewritten from the
                      # text of ctrlutil.unwrap and of the count / indentation / P-Z statements of nyquist_response
-                     "CtrlVerif.Props.C13Gen", "CtrlVerif.Props.C13GenIndent", "CtrlVerif.Props.C13GenArg"]
+                     "CtrlVerif.Props.C13Gen", "CtrlVerif.Props.C13GenIndent", "CtrlVerif.Props.C13GenArg",
+                     # source-text tie of the default grid (notes/NOTES-py2lean-grid.md): Generated/Grid*.lean
+                     "CtrlVerif.Props.C13GenGrid", "CtrlVerif.Props.C13GenGridNyq"]
 
     def pre_build(self):
         import os
         from core import py2lean_nyq, leanproj
         problems, self.gen_info = py2lean_nyq.regenerate(os.environ.get("VERIF_REPO") or "/repo", leanproj.LEAN)
-        return problems
+        from core import py2lean_grid
+        problems_grid, gen_info_grid = py2lean_grid.regenerate(os.environ.get("VERIF_REPO") or "/repo", leanproj.LEAN)
+        self.gen_info.update(gen_info_grid)
+        return problems + problems_grid
     externals = ["numpy.angle (quadrant contract checked per sample)", "numpy.sqrt", "numpy.log / numpy.exp "
                  "(discrete-time contour mapping)", "poles() of the loop and of the closed loop "
                  "(numpy.roots / eigvals)", "evaluation of the loop on the contour (C04)",
@@ -521,6 +661,10 @@ class C13(Family):
             "grid (range exponents, start at 0, end at Nyquist) against the model; continuous-time loops also with "
             "unspecified timebase (dt=None by keyword, by the configured default_dt, by ss(sys, dt=None), by a product "
             "with a static gain) and with all roots scaled by 1/100 .. 10^4 (dynamics outside 0.01 .. 100 rad/s); "
+            "lists of 1-5 such loops analysed in ONE call (a slowly sampled loop before continuous-time / scaled / "
+            "high-gain / faster-sampled loops, mixed lists in random order, the same loop twice as one or two objects, "
+            "tuples, the call made twice): every loop of the list against its exact Z - P and against the model's "
+            "contour on the common grid cut at the loop's own Nyquist frequency; "
             "non-trivial = dynamic loop with Z != 0 or P != 0 or an indentation")
 
     def __init__(self):
@@ -738,8 +882,80 @@ class C13(Family):
             c = self.gen_one(rng, "scaled")
             if valid(c):
                 out.append(c)
+        # several loops in ONE call of nyquist_response (one common grid, cut per loop at its Nyquist frequency)
+        m = len(out) + (45 if tier == "quick" else 450)
+        while len(out) < m:
+            c = self.gen_list(rng)
+            if valid(c):
+                out.append(c)
         out += [self.gen_unwrap(rng) for _ in range(40 if tier == "quick" else 600)]
         return out
+
+    LIST_KINDS = ["generic", "generic", "generic", "zpk", "zpk", "highgain", "highgain", "scaled", "dcircle", "lightcl"]
+    SLOW_T = ["1", "1", "5", "true", "1/2", "2"]
+    FAST_T = ["1/100", "1/100", "1/10", "1/8"]
+
+    def gen_member(self, rng, kinds, disc=None, Ts=None):
+        """one loop of a list: an ordinary case (default direction, no per-loop configuration); `disc` forces the
+        timebase class, `Ts` the sampling time of a discrete-time loop"""
+        for _ in range(400):
+            c = self.gen_one(rng, rng.choice(kinds))
+            if disc is not None and c["disc"] != disc:
+                continue
+            c.pop("cfg", None)
+            if c.get("route") == "default":
+                del c["route"]
+            if c["disc"] and Ts:
+                c["T"] = rng.choice(Ts)
+            if c["dir"] == "right" and valid(c):
+                return c
+        return None
+
+    def gen_list(self, rng):
+        """a list of loops for one call.
+        slowfirst : a slowly sampled discrete-time loop (dt = 1/2 .. 5, True) and one to three loops that need higher
+                    frequencies - continuous-time loops (ordinary, all roots scaled by 100 .. 10^4, high gain) or
+                    discrete-time loops sampled 10 .. 500 times faster; the slow loop mostly FIRST
+        mixed     : two to four loops of any kind and timebase in random order
+        single    : a list of one loop
+        plus: the same loop twice (as two objects or as the same object), a tuple instead of a list, the call made
+        twice, a configured default periphery"""
+        x = rng.random()
+        ms = []
+        if x < 0.5:
+            slow = self.gen_member(rng, ["generic", "generic", "zpk", "highgain", "dcircle"], disc=True, Ts=self.SLOW_T)
+            for _ in range(rng.choice([1, 1, 1, 2, 2, 3])):
+                y = rng.random()
+                if y < 0.3:
+                    ms.append(self.gen_member(rng, ["scaled"], disc=False))
+                elif y < 0.55:
+                    ms.append(self.gen_member(rng, ["generic", "highgain", "zpk"], disc=False))
+                elif y < 0.85:
+                    ms.append(self.gen_member(rng, ["generic", "zpk", "highgain", "dcircle"], disc=True, Ts=self.FAST_T))
+                else:
+                    ms.append(self.gen_member(rng, self.LIST_KINDS))
+            if rng.random() < 0.7:
+                ms.insert(0, slow)
+            else:
+                ms.insert(rng.randint(0, len(ms)), slow)
+        elif x < 0.95:
+            ms = [self.gen_member(rng, self.LIST_KINDS) for _ in range(rng.choice([2, 2, 3, 3, 4]))]
+        else:
+            ms = [self.gen_member(rng, self.LIST_KINDS)]
+        if any(m is None for m in ms):
+            return {"kind": "list", "members": []}
+        case = {"kind": "list", "members": ms}
+        if rng.random() < 0.15 and len(ms) < 4:
+            ms.insert(rng.randint(0, len(ms)), dict(rng.choice(ms)))       # the same loop twice
+            if rng.random() < 0.5:
+                case["share"] = True
+        if rng.random() < 0.15:
+            case["cont"] = "tuple"
+        if rng.random() < 0.3:
+            case["twice"] = True
+        if rng.random() < 0.1:
+            case["cfg"] = rng.choice(["0", "1/2", "3"])
+        return case
 
     def corpus(self):
         base = {"kind": "corpus", "disc": False, "T": "0", "rep": "tf", "dir": "right", "k": "1"}
@@ -754,7 +970,20 @@ class C13(Family):
             mk(ol=[["r", "0"]], cl=[["r", "-1"]], disc=True, T="1/2"),
             # lightly damped open-loop pair 10 radii from the axis: the default grid steps over the resonance
             mk(kind="light", ol=[["c", "-1/1000", "5"]], cl=[["c", "1/2", "5"]]),
-        ] + self.corpus_fwd()
+        ] + self.corpus_fwd() + self.corpus_list()
+
+    def corpus_list(self):
+        base = {"kind": "corpus", "form": "zpk", "disc": False, "T": "0", "rep": "tf", "dir": "right", "zr": []}
+        mk = lambda **kw: dict(base, **kw)
+        slow = mk(k="1/5", ol=[["r", "1/2"]], disc=True, T="1")                        # 0.2/(z - 0.5), dt = 1
+        cont = mk(k="20000", ol=[["r", "-10"], ["r", "-10"], ["r", "-10"]])            # 20/(s/10 + 1)^3: Z - P = 2
+        fast = mk(k="5/2", ol=[["r", "7/10"], ["r", "1/2"]], disc=True, T="1/100")     # unstable closed loop, dt = 0.01
+        return [
+            {"kind": "list", "members": [slow, cont, fast]},
+            {"kind": "list", "members": [fast, cont, slow], "twice": True},
+            {"kind": "list", "members": [cont, cont], "share": True, "cont": "tuple"},
+            {"kind": "list", "members": [slow]},
+        ]
 
     def corpus_fwd(self):
         base = {"kind": "corpus", "form": "zpk", "disc": False, "T": "0", "rep": "tf", "dir": "right", "zr": []}
@@ -792,13 +1021,24 @@ class C13(Family):
         if key not in self._cache:
             if len(self._cache) > 20000:
                 self._cache.clear()
-            self._cache[key] = run_case(case)
+            self._cache[key] = run_list(case) if is_list(case) else run_case(case)
         return self._cache[key]
 
     def line(self, case):
         if case["kind"] == "unwrap":
             return "nyq unwrap %s %d %s" % (case["period"], len(case["a"]), " ".join(case["a"]))
-        o = self.obs(case)
+        if is_list(case):
+            obs = self.obs(case)
+            lines = []
+            for i, (m, o) in enumerate(zip(case["members"], obs["members"])):
+                lines += self.line_loop(m, o, lst=(case, i))
+            return lines
+        return self.line_loop(case, self.obs(case))
+
+    def line_loop(self, case, o, lst=None):
+        """the six driver lines of one loop; `lst` = (list case, position) when the loop was analysed as one entry of
+        a list: (d) is then the model of the common range (`lgrid`: features of all systems) and (e) the model of the
+        loop over the systems (`lomega`: the timebases of all systems, this one's position)"""
         lines = []
         # (a) count
         if "exc" in o or not finite(o["resp"]):
@@ -839,11 +1079,23 @@ class C13(Family):
                 or not finite(o["raw"]):
             lines += ["nyq unwrap 1 0", "nyq unwrap 1 0"]
         else:
-            cfg = F(case["cfg"]) if case.get("cfg") is not None else fr(ct.config.defaults.get(CFG_KEY, 1))
-            parts = ["nyq grid", tok(cfg), str(len(o["logs"]))] + [ftok(x) for x in o["logs"]]
-            parts += [str(len(o["interesting"]))] + [ftok(x) for x in o["interesting"]]
+            cfgc = lst[0] if lst else case
+            cfg = F(cfgc["cfg"]) if cfgc.get("cfg") is not None else fr(ct.config.defaults.get(CFG_KEY, 1))
+            if lst:
+                parts = ["nyq lgrid", tok(cfg), str(len(o["fs"]))]
+                for (lg, it) in o["fs"]:
+                    parts += [str(len(lg))] + [ftok(x) for x in lg] + [str(len(it))] + [ftok(x) for x in it]
+            else:
+                parts = ["nyq grid", tok(cfg), str(len(o["logs"]))] + [ftok(x) for x in o["logs"]]
+                parts += [str(len(o["interesting"]))] + [ftok(x) for x in o["interesting"]]
             lines.append(" ".join(parts))
-            if case["disc"] or tb_none(case) or zlib.crc32(canon(case).encode()) % 4 == 0:
+            if lst:
+                ms = lst[0]["members"]
+                parts = ["nyq lomega", PI_TOK, str(o["npts"]), str(lst[1]), str(len(ms))]
+                parts += [base_dt_tok(m) for m in ms]
+                parts += [str(len(o["raw"]))] + [ftok(w) for w in o["raw"]]
+                lines.append(" ".join(parts))
+            elif case["disc"] or tb_none(case) or zlib.crc32(canon(case).encode()) % 4 == 0:
                 # every discrete-time case (the cut at the Nyquist frequency), every case with unspecified timebase
                 # and a quarter of the others
                 nyq = ftok(math.pi / disc_dt(case)) if case["disc"] else "N"
@@ -964,13 +1216,22 @@ class C13(Family):
         zs = list(np.abs(np.roots(numf))) if len(numf) > 1 else []
         return [abs(q) for q in C13.ol_numeric(case)] + zs
 
-    def mechanism(self, case, o):
-        """why a sampled count can differ from Z - P (c13_exact.mechanism) on the contour the implementation used"""
+    def mechanism(self, case, o, in_list=False):
+        """why a sampled count can differ from Z - P (c13_exact.mechanism) on the contour the implementation used;
+        a loop analysed as one entry of a list: the documented range ends where the COMMON grid of the call ends
+        (harness replica from the poles / zeros of all systems; both neighbours when `rint` is next to a tie)"""
         dt = None
         if case["disc"]:
             dt = 1.0 if case["T"] == "true" else float(F(case["T"]))
+        ends = None
+        if in_list and "lohi" in o:
+            ends = [10.0 ** o["lohi"][1]]
+            if rint_marginal(o["logs"]):
+                x = float(np.max(o["logs"])) + 2
+                top = float(np.max(o["interesting"])) if len(o["interesting"]) else -math.inf
+                ends = [10.0 ** max(c, top) for c in (math.floor(x), math.ceil(x))]
         return X.mechanism(self.cl_numeric(case), self.ol_numeric(case), o["contour"], case["disc"], dt,
-                           self.loop_features(case))
+                           self.loop_features(case), range_ends=ends)
 
     @staticmethod
     def native_poles(rt, case):
@@ -1009,7 +1270,13 @@ class C13(Family):
                 return {"out": [tok(fr(x)) for x in np.asarray(out)]}
             except Exception as e:  # noqa
                 return {"err": "%s: %s" % (type(e).__name__, str(e)[:120])}
-        o = self.obs(case)
+        if is_list(case):
+            obs = self.obs(case)
+            return {"members": [self.impl_loop(m, o) for m, o in zip(case["members"], obs["members"])],
+                    "ncrit": obs["ncrit"], "repeat": obs["repeat"]}
+        return self.impl_loop(case, self.obs(case))
+
+    def impl_loop(self, case, o):
         _, _, P, Z = build(case)
         res = {"P": P, "Z": Z}
         if "exc" in o:
@@ -1030,6 +1297,13 @@ class C13(Family):
         if case["kind"] == "unwrap":
             t = out.split()
             return {"out": [tok(F(x)) for x in t[2:]]} if t[0] == "ok" else {"err": out}
+        if is_list(case):
+            ms = case["members"]
+            return {"members": [self.parse_loop(m, out[6 * i:6 * i + 6], canon(case) + "#%d" % i)
+                                for i, m in enumerate(ms)]}
+        return self.parse_loop(case, out, canon(case))
+
+    def parse_loop(self, case, out, key):
         a, b, c, d, e, f = out
         m = {}
         t = f.split()
@@ -1048,7 +1322,7 @@ class C13(Family):
             # kept outside the model dict (the runner stores sample models in the evidence)
             if len(self._momega) > 20000:
                 self._momega.clear()
-            self._momega[canon(case)] = np.array([float(F(x)) for x in t[2:]])
+            self._momega[key] = np.array([float(F(x)) for x in t[2:]])
             m["omega_n"] = int(t[1])
         t = a.split()
         if t[0] == "ok" and len(t) == 4:
@@ -1126,7 +1400,60 @@ class C13(Family):
                 return Verdict(AGREE)
             return Verdict(DIFFERS, "ctrlutil.unwrap %s vs model %s" % (impl, model),
                            {"kind": "unwrap-unit", "period": case["period"]})
-        o = self.obs(case)
+        if is_list(case):
+            return self.compare_list(case, impl, model)
+        return self.compare_loop(case, impl, model, self.obs(case), canon(case))
+
+    def compare_list(self, case, impl, model):
+        """every loop of the list is compared like a loop analysed on its own (its count against Z - P; the model's
+        contour - from the COMMON documented grid, cut at the loop's own Nyquist frequency - against its contour);
+        a violation by a loop whose contour is not the model's is reported first (a known finding needs the model's
+        contour); list level: number of criterion warnings, the same call made twice"""
+        obs = self.obs(case)
+        ms = case["members"]
+        lf = {"list": True, "container": case.get("cont", "list")}
+        if any("err" in r for r in impl["members"]):
+            r0 = next(r for r in impl["members"] if "err" in r)
+            if all(r.get("in_claim") for r in impl["members"]):
+                f = self.features(ms[0], "raises", {"exc": r0["err"].split(":")[0]})
+                f.update(lf)
+                return Verdict(VIOLATES, "nyquist_response raises %s on a list of loops inside the claim" % r0["err"], f)
+            return Verdict(AGREE)
+        vs = []
+        for i, m in enumerate(ms):
+            v = self.compare_loop(m, impl["members"][i], model["members"][i], obs["members"][i],
+                                  canon(case) + "#%d" % i, in_list=True)
+            if v.status != AGREE:
+                pre = ms[:i]
+                f = dict(v.features or {})
+                f.update(lf)
+                f["after_discrete"] = any(q["disc"] for q in pre)
+                vs.append(Verdict(v.status, "loop %d of %d in one call: %s" % (i, len(ms), v.detail), f))
+        viol = [v for v in vs if v.status == VIOLATES]
+        if viol:
+            viol.sort(key=lambda v: bool(v.features.get("contour_model_agrees")))
+            return viol[0]
+        if impl.get("repeat"):
+            return Verdict(DIFFERS, "the same call made twice: " + impl["repeat"], dict(lf, kind="repeat-call"))
+        # (c) at list level: one 'does not match Nyquist criterion' warning per loop the model predicts one for
+        exp = [self.crit_expected(m, o, mm) for m, o, mm in zip(ms, obs["members"], model["members"])]
+        if impl.get("ncrit") is not None and all(e is not None for e in exp) and sum(exp) != impl["ncrit"]:
+            return Verdict(DIFFERS, "%d criterion warnings, model predicts %d (per loop: %s)" % (
+                impl["ncrit"], sum(exp), exp), dict(lf, kind="criterion-warning"))
+        if vs:
+            return vs[0]
+        return Verdict(AGREE)
+
+    @staticmethod
+    def crit_expected(case, o, model):
+        """does the model predict the criterion warning for this loop (None: not decidable: a pole on the circle)"""
+        if "crit" not in model or "zpoles" not in o:
+            return None
+        if case["disc"] and any(abs(abs(p) - 1) < 1e-12 for p in list(o["zpoles"]) + list(o["zclpoles"])):
+            return None
+        return not model["crit"]
+
+    def compare_loop(self, case, impl, model, o, key, in_list=False):
         if "err" in impl:
             if impl.get("in_claim", self.in_claim(case, {})[0]):
                 return Verdict(VIOLATES, "nyquist_response raises %s on a loop inside the claim" % impl["err"],
@@ -1148,7 +1475,7 @@ class C13(Family):
         b_diff = self.compare_contour(case, o, model)
         # (c) P/Z conventions and warning
         c_diff = None
-        if "crit" in model:
+        if "crit" in model and impl["warn_criterion"] is not None:
             edge = (case["disc"] and any(abs(abs(p) - 1) < 1e-12 for p in
                                          list(o["zpoles"]) + list(o["zclpoles"])))
             if not edge and model["crit"] == impl["warn_criterion"]:
@@ -1156,10 +1483,10 @@ class C13(Family):
                     impl["warn_criterion"], model["Z"], model["P"], impl["count"])
         # (d) the range of the default grid, (e) start at 0 / stop at the Nyquist frequency
         d_diff = self.compare_grid(o, model)
-        e_diff = self.compare_omega(case, o, model)
+        e_diff = self.compare_omega(key, o, model)
         f_diff = self.compare_tb(case, o, model)
         if prop_fails:
-            mech = self.mechanism(case, o)
+            mech = self.mechanism(case, o, in_list)
             # known findings are about the adequacy of the DOCUMENTED default contour: they can only match when the
             # contour the implementation used is the model's contour (documented grid, inserted points, indentation)
             extra = {"model_count_agrees": a_diff is None,
@@ -1226,10 +1553,10 @@ class C13(Family):
                     len(want), model["grid"][0], want[0], model["grid"][1], want[-1])
         return None
 
-    def compare_omega(self, case, o, model):
+    def compare_omega(self, key, o, model):
         if "omega_err" in model:
             return "model defaultOmega raises %s" % model["omega_err"]
-        mo = self._momega.get(canon(case))
+        mo = self._momega.get(key)
         if "omega_n" not in model or mo is None or "omega" not in o:
             return None
         if len(mo) != len(o["omega"]):
@@ -1287,12 +1614,57 @@ class C13(Family):
     def nontrivial(self, case, model):
         if case["kind"] == "unwrap":
             return len(case["a"]) >= 2 and model.get("out") != case["a"]
+        if is_list(case):
+            return len(case["members"]) >= 2 and any(
+                self.nontrivial(m, mm) for m, mm in zip(case["members"], model["members"]))
         _, _, P, Z = build(case)
         return deg(case["ol"]) >= 1 and (P != 0 or Z != 0 or model.get("moved", 0) > 0)
+
+    @staticmethod
+    def list_pattern(case):
+        """timebases of the loops in the order of the list: c (dt = 0), n (dt = None), d (discrete)"""
+        return "".join("d" if m["disc"] else "n" if tb_none(m) else "c" for m in case["members"])
+
+    @staticmethod
+    def slow_first(case):
+        """some discrete-time loop stands before a loop that needs frequencies above its Nyquist frequency (a
+        continuous-time loop or a faster-sampled one)"""
+        ms = case["members"]
+        for i, a in enumerate(ms):
+            if a["disc"]:
+                for b in ms[i + 1:]:
+                    if not b["disc"] or disc_dt(b) < disc_dt(a):
+                        return True
+        return False
+
+    def stats_list(self, case, impl, model):
+        ms = case["members"]
+        st = {"kind": "list", "list_len": len(ms), "list_timebases": self.list_pattern(case),
+              "list_discrete_before_faster_loop": self.slow_first(case),
+              "list_container": case.get("cont", "list"), "list_same_object_twice": bool(case.get("share")),
+              "list_called_twice": bool(case.get("twice")), "configured_periphery": case.get("cfg", "default")}
+        rs = impl["members"]
+        if any("err" in r for r in rs):
+            st["outcome"] = "raises/%s" % ("in-claim" if all(r.get("in_claim") for r in rs) else "some-loop-outside")
+            return st
+        inc = [r for r in rs if r["in_claim"]]
+        st["list_loops_in_claim"] = "%d/%d" % (len(inc), len(rs))
+        st["list:count==Z-P(all in-claim loops)"] = all(r["count"] == r["Z"] - r["P"] for r in inc)
+        obs = self.obs(case)
+        for i, (m, r, mm, o) in enumerate(zip(ms, rs, model["members"], obs["members"])):
+            if r["in_claim"]:
+                pos = "after-discrete" if any(q["disc"] for q in ms[:i]) else "first-or-after-continuous"
+                st_key = "list-loop dt=%s %s:count==Z-P" % (self.dt_label(m), pos)
+                st[st_key] = st.get(st_key, True) and r["count"] == r["Z"] - r["P"]
+        st["list_grid_checked"] = all("grid" in mm and "omega_n" in mm and "_pts" in mm for mm in model["members"])
+        st["list_criterion_warnings"] = impl.get("ncrit")
+        return st
 
     def stats(self, case, impl, model):
         if case["kind"] == "unwrap":
             return {"kind": "unwrap", "unwrap_len": len(case["a"]), "unwrap_changed": model.get("out") != case["a"]}
+        if is_list(case):
+            return self.stats_list(case, impl, model)
         st = {"kind": case["kind"], "timebase": "disc" if case["disc"] else "cont", "rep": case["rep"],
               "order": deg(case["ol"]), "dir": case["dir"],
               "biproper": (deg(case["zr"]) == deg(case["ol"])) if fwd(case) else case["k"] != "1",
@@ -1357,6 +1729,23 @@ class C13(Family):
             for i in range(len(case["a"])):
                 yield dict(case, a=case["a"][:i] + case["a"][i + 1:])
             return
+        if is_list(case):
+            ms = case["members"]
+            for k in ("twice", "share", "cont", "cfg"):
+                if k in case:
+                    yield {a: b for a, b in case.items() if a != k}
+            if len(ms) > 1:
+                for i in range(len(ms)):
+                    yield dict(case, members=ms[:i] + ms[i + 1:])
+            for i, m in enumerate(ms):
+                n = 0
+                for sm in self.shrink(m):
+                    if valid(sm):
+                        yield dict(case, members=ms[:i] + [sm] + ms[i + 1:])
+                        n += 1
+                        if n >= 6:
+                            break
+            return
         if "route" in case:
             new = {k: v for k, v in case.items() if k != "route"}
             if valid(new):
@@ -1413,6 +1802,12 @@ class C13(Family):
         out = []
         if case["kind"] == "unwrap":
             return [self.gen_unwrap(rng) for _ in range(200)]
+        if is_list(case):
+            while len(out) < 80:
+                c = self.gen_list(rng)
+                if valid(c):
+                    out.append(c)
+            return out
         for _ in range(200):
             c = self.gen_one(rng, case.get("kind") if case.get("kind") in self.KINDS else "generic")
             if valid(c):
